@@ -26,6 +26,7 @@ let err_name = function
   | Some ErrSizeZero -> "size-zero" | Some ErrRegisterTwice -> "register-twice"
   | Some ErrRootFlags -> "root-flags" | Some ErrRootWithFinalizer -> "root-with-finalizer"
   | Some ErrInvalidUnregister -> "invalid-unregister" | Some ErrInvalidReregister -> "invalid-reregister"
+  | Some ErrCollectorCheck -> "collector-check"
   | Some ErrPrecond -> "precond" | Some OutOfFuel -> "out-of-fuel"
 
 let ev_str = function
